@@ -64,6 +64,10 @@ template<class T> static void nary(T a, T b, T c, T d, const char* tn)
 	if (!samev(glm::fmin(a, b), fmin_ref<T>({a, b})) || !samev(glm::fmin(a, b, c), fmin_ref<T>({a, b, c})) || !samev(glm::fmin(a, b, c, d), fmin_ref<T>({a, b, c, d}))) tfail("fmin" + sfx, "NaN only if every operand is NaN, else the minimum of the numbers", in, fs(fmin_ref<T>({a, b, c, d})), fs(glm::fmin(a, b, c, d)));
 	if (!samev(glm::fmax(a, b), fmax_ref<T>({a, b})) || !samev(glm::fmax(a, b, c), fmax_ref<T>({a, b, c})) || !samev(glm::fmax(a, b, c, d), fmax_ref<T>({a, b, c, d}))) tfail("fmax" + sfx, "NaN only if every operand is NaN, else the maximum of the numbers", in, fs(fmax_ref<T>({a, b, c, d})), fs(glm::fmax(a, b, c, d)));
 	{ T w = fmin_ref<T>({fmax_ref<T>({a, b}), c}); if (!samev(glm::fclamp(a, b, c), w)) tfail("fclamp" + sfx, "fmin(fmax(x, lo), hi)", in, fs(w), fs(glm::fclamp(a, b, c))); }
+	// step(edge, x) = x < edge ? 0 : 1 literally: 1 as soon as an operand is NaN (the comparison is false); scalar and vector overloads
+	{ T w = b < a ? (T)0 : (T)1; glm::vec<4, T> e4(a, b, c, d), x4(b, a, d, c); auto r1 = glm::step(a, x4), r2 = glm::step(e4, x4);
+	  bool ok = samev(glm::step(a, b), w); for (int k = 0; k < 4; ++k) { ok = ok && samev(r1[k], (T)(x4[k] < a ? 0 : 1)) && samev(r2[k], (T)(x4[k] < e4[k] ? 0 : 1)); }
+	  if (!ok) tfail("step" + sfx, (a != a || b != b || c != c || d != d) ? "NaN operand: x < edge is false" : "value", in, fs(w), fs(glm::step(a, b))); }
 	if (a != a || b != b || c != c || d != d) return;
 	if (!samev(glm::min(a, b), b < a ? b : a) || !samev(glm::max(a, b), a < b ? b : a)) tfail("min/max" + sfx, "value", in, "", "");
 #if !(GLM_ARCH & GLM_ARCH_SIMD_BIT)
